@@ -5,14 +5,15 @@ Driver for C06.
 
 Fail case:
   <id> A <r|s> <path> <stText: n (<nat> <str>)…> <opts: n opt…> <accept: 0 | 1 str> <answers: n str…>
-       <preCT: 0 | 1 str> <abortFirst> <ctxDone> <pos> <call> => R <status> <ctype> <bodies: n json…> <aborted> <entered: n nat…> | P
+       <preCT: 0 | 1 str> <abortFirst> <ctxDone> <pos> <call>
+       => R <status> <ctype> <bodies: n json…> <aborted> <entered: n nat…> <"handler error" log records: n (<error text> <status>)…> | P
 MarshalJSON case:
   <id> M <type> <title> <status> <detail> <instance> <ext: n (<str> json)…> => R json | E | P
 
   opt  ::= F fmt | M <n> (<str> fmt)… | D <str>
   fmt  ::= <r|j|s> <baseURL> <disableID> <statusRes: 0 | 1 nat> <typeRes: 0 | 1 str>
   call ::= C err | S <nat> <0 | 1 err> | H <helper 0..9> <0 | 1 err>
-  err  ::= N <st: 0 | 1 nat> <code: 0 | 1 str> <det: 0 | 1 json> msg <n> err…
+  err  ::= N <st: 0 | 1 nat> <code: 0 | 1 str> <det: 0 | 1 json | 2 (Details() cannot be encoded)> msg <n> err…
   msg  ::= O <str> | P <str> | J | I | T <nat>
   json ::= z | t | f | n <str> | s <str> | a <n> json… | o <n> (<str> json)…
 -/
@@ -47,10 +48,14 @@ def pErr : Nat → P Err
     lit "N"
     let st ← opt nat
     let code ← opt str
-    let det ← opt (pJson fuel)
+    let dk ← tok
+    let (det, bad) ← (if dk == "0" then pure (none, false)
+      else if dk == "1" then (fun j => (some j, false)) <$> pJson fuel
+      else if dk == "2" then pure (some Json.null, true)
+      else failure : P (Option Json × Bool))
     let m ← pMsg
     let kids ← list (pErr fuel)
-    pure (.node { st := st, code := code, det := det } m kids)
+    pure (.node { st := st, code := code, det := det, detBad := bad } m kids)
 
 def pKind : P FKind := do
   let k ← tok
@@ -123,7 +128,7 @@ def pACase (fuel : Nat) : P ACase := do
   pure { wire := w, path := path, stTab := tab, opts := opts, accept := accept, answers := answers, preCT := pre, abortFirst := ab, ctxDone := cd,
          pos := pos, call := call }
 
-def pResp (fuel : Nat) : P (Option Resp) := do
+def pResp (fuel : Nat) : P (Option (Resp × List LogRec)) := do
   let k ← tok
   if k == "R" then
     let st ← nat
@@ -131,7 +136,8 @@ def pResp (fuel : Nat) : P (Option Resp) := do
     let bodies ← list (pJson fuel)
     let ab ← bool
     let entered ← list nat
-    pure (some { status := st, contentType := ct, bodies := bodies, aborted := ab, entered := entered })
+    let logs ← list (do let e ← str; let s ← nat; pure ({ error := e, status := s } : LogRec))
+    pure (some ({ status := st, contentType := ct, bodies := bodies, aborted := ab, entered := entered }, logs))
   else if k == "P" then pure none
   else failure
 
@@ -153,6 +159,9 @@ def encResp (r : Resp) : String :=
   s!"R {r.status} {encStr r.contentType} {r.bodies.length}" ++ String.join (r.bodies.map fun b => " " ++ encJson b) ++
   (if r.aborted then " 1 " else " 0 ") ++ toString r.entered.length ++ String.join (r.entered.map fun n => " " ++ toString n)
 
+def encLogs (l : List LogRec) : String :=
+  s!" {l.length}" ++ String.join (l.map fun r => " " ++ encStr r.error ++ " " ++ toString r.status)
+
 def respEq (a b : Resp) : Bool :=
   a.status == b.status && a.contentType == b.contentType && a.bodies == b.bodies && a.aborted == b.aborted && a.entered == b.entered
 
@@ -160,23 +169,34 @@ def canonResp (r : Resp) : Resp := { r with bodies := r.bodies.map Json.canon }
 
 /-- the model's possible responses: one per answer `c.Accepts` can give (the order of the offers is
     the iteration order of a Go map) -/
-def possible (c : ACase) : List Resp :=
+def possible (c : ACase) : List (Resp × List LogRec) :=
   let env : Env := { path := c.path, stText := stTextOf c.stTab }
   let cfg := mkCfg c.opts
-  c.answers.map fun ans => canonResp (failH c.preCT c.abortFirst c.ctxDone env cfg ans c.wire c.pos c.call)
+  c.answers.map fun ans => (canonResp (failH c.preCT c.abortFirst c.ctxDone env cfg ans c.wire c.pos c.call),
+    [failLog env cfg ans c.call])
 
 def stepA (id : String) (inp obs : List String) : String :=
   match runP (pACase inp.length) inp, runP (pResp obs.length) obs with
   | some c, some o =>
     let ms := possible c
     let mi := match o with
-      | some r => ms.any (respEq r)
+      | some (r, logs) => ms.any fun m => respEq r m.1 && logs == m.2
       | none => false
     let s := match o with
-      | some r => specOK c.opts c.accept c.pos c.call r
+      | some (r, _) => specOK c.opts c.accept c.pos c.call r
       | none => false
     let d := if knownK06c c.wire c.opts c.accept c.call then "K06c" else "-"
-    verdict id mi s d (match ms with | m :: _ => encResp m | [] => "none")
+    verdict id mi s d (match ms with | m :: _ => encResp m.1 ++ encLogs m.2 | [] => "none")
+  | _, _ => s!"{id} bad-case"
+
+/-- a formatter whose body never encodes: `<id> B <pos> => R … | P`; only the abort clause is judged -/
+def stepB (id : String) (inp obs : List String) : String :=
+  match runP nat inp, runP (pResp obs.length) obs with
+  | some pos, some o =>
+    let m := failUnencodable pos
+    let mi := match o with | some (r, _) => respEq r m | none => false
+    let s := match o with | some (r, _) => abortOK pos r | none => false
+    verdict id mi s "-" (encResp m)
   | _, _ => s!"{id} bad-case"
 
 def stepM (id : String) (inp obs : List String) : String :=
@@ -228,6 +248,7 @@ def step (line : String) : String :=
     match inp with
     | "A" :: rest => stepA id rest obs
     | "M" :: rest => stepM id rest obs
+    | "B" :: rest => stepB id rest obs
     | "F" :: rest => stepF id rest obs
     | _ => s!"{id} bad-case"
 
